@@ -11,6 +11,10 @@
 //! - [`DetSet`] is an insertion-ordered set, so that iteration order (and with it the order
 //!   of lock acquisitions) does not depend on `RandomState` or on pointer values.
 //!
+//! - [`FsHooks`] is a seam for the two places where the crate touches the file system
+//!   (`AutosarModel::load_file` reads a whole file, `AutosarModel::write` writes whole files): with
+//!   an installed handler these go to a simulated disk that can fail; without one they go to `std::fs`.
+//!
 //! Nothing in here changes the behaviour of the crate when the feature is disabled.
 
 #![allow(missing_docs)]
@@ -97,6 +101,42 @@ pub fn reset_lock_ids(first: u64) {
 /// The id the next created lock will get
 pub fn peek_next_lock_id() -> u64 {
     NEXT_LOCK_ID.load(Ordering::SeqCst)
+}
+
+/// The interface of a simulated disk
+pub trait FsHooks: Sync + Send {
+    /// stands in for `std::fs::read`
+    fn read(&self, path: &std::path::Path) -> std::io::Result<Vec<u8>>;
+    /// stands in for `std::fs::write`
+    fn write(&self, path: &std::path::Path, contents: &[u8]) -> std::io::Result<()>;
+}
+
+static FS_HOOKS: OnceLock<&'static dyn FsHooks> = OnceLock::new();
+
+/// Install the simulated disk. Can be done once per process; returns false if one was already installed.
+pub fn install_fs_hooks(hooks: &'static dyn FsHooks) -> bool {
+    FS_HOOKS.set(hooks).is_ok()
+}
+
+pub fn fs_read<P: AsRef<std::path::Path>>(path: P) -> std::io::Result<Vec<u8>> {
+    match FS_HOOKS.get() {
+        Some(h) => h.read(path.as_ref()),
+        None => std::fs::read(path),
+    }
+}
+
+pub fn fs_write<P: AsRef<std::path::Path>, C: AsRef<[u8]>>(path: P, contents: C) -> std::io::Result<()> {
+    match FS_HOOKS.get() {
+        Some(h) => h.write(path.as_ref(), contents.as_ref()),
+        None => std::fs::write(path, contents),
+    }
+}
+
+/// What `std` means inside `AutosarModel::load_file` and `AutosarModel::write` when the feature is on
+pub mod std_shim {
+    pub mod fs {
+        pub use crate::verif::{fs_read as read, fs_write as write};
+    }
 }
 
 #[inline]
